@@ -368,7 +368,7 @@ def discharge(ob: Obligation, timeout_ms=20000, extra_axioms=(), use_cvc5=True):
                     break
         except z3.Z3Exception:
             pass
-    if ob.status == "failed" and _mentions_partial_theory(hyps + [goal]):
+    if ob.status == "failed" and (_mentions_partial_theory(hyps + [goal]) or _mentions_partial_theory([goal], counts=True)):
         # the compaction functions of boolean-mask gathers (rank_/sel_) carry instance axioms only: a model over them need
         # not correspond to any array, so `sat` is not a refutation; the obligation stays undecided (stand-in decides)
         ob.status = "unknown"
@@ -377,7 +377,9 @@ def discharge(ob: Obligation, timeout_ms=20000, extra_axioms=(), use_cvc5=True):
     return ob
 
 
-def _mentions_partial_theory(terms):
+def _mentions_partial_theory(terms, counts=False):
+    """counts=False: the mask-compaction functions anywhere; counts=True: an unconstrained mask count (looked for in the GOAL only:
+    path conditions mention such counts all the time without depending on them)"""
     seen = set()
 
     def walk(t):
@@ -386,8 +388,10 @@ def _mentions_partial_theory(terms):
         seen.add(t.get_id())
         if z3.is_app(t):
             d = t.decl()
-            if d.kind() == z3.Z3_OP_UNINTERPRETED and t.num_args() > 0 and d.name().startswith(("sel_", "rank_", "pos_", "sorted_", "sortperm_")):
+            if not counts and d.kind() == z3.Z3_OP_UNINTERPRETED and t.num_args() > 0 and d.name().startswith(("sel_", "rank_", "pos_", "sorted_", "sortperm_")):
                 return True
+            if counts and d.kind() == z3.Z3_OP_UNINTERPRETED and t.num_args() == 0 and d.name().startswith("countP_"):
+                return True             # the number of True entries of a mask whose construction the array model has no counting fact for
             return any(walk(c) for c in t.children())
         return False
     return any(walk(t) for t in terms if not isinstance(t, bool))
